@@ -180,9 +180,12 @@ call_out ()
 
   while (call_out_time < current_time)
     {
-      /* we increment at the end in case we are interrupted by errors,
-         but we need to use call_out_time + 1 here. */
-      tm = (call_out_time + 1) & (CALLOUT_CYCLE_SIZE - 1);
+      /* Advance call_out_time before running the callbacks of this second:
+         errors are recovered inside the loop below, and a call_out scheduled
+         (or queried) from inside a callback must count its rotations from
+         the slot that is being swept right now, not from the one before. */
+      call_out_time++;
+      tm = call_out_time & (CALLOUT_CYCLE_SIZE - 1);
       if (call_list[tm] && --call_list[tm]->delta == 0)
         do
           {
@@ -258,7 +261,6 @@ call_out ()
               }
           }
         while (call_list[tm] && call_list[tm]->delta == 0);
-      call_out_time++;
     }
 
   pop_context (&econ);
